@@ -16,6 +16,9 @@ SCRIPTS = {
     "B": {1: [("c2", 20), ("c2", 20), ("c1", 20)], 2: [("c1", 20), ("c2", 20)]},
     "C": {1: [("c1", 20), ("c1", 10), ("c1", 20)], 2: [("c1", 20), ("c1", 5)]},
     "D": {1: [("c2", 20), ("c2", 20)], 2: [("c2", 20), ("c2", 10)]},
+    # one sender's same-type messages around another sender's higher-priority ones: the agent consumes those while the first
+    # message of the sender is still queued, then the sender posts again
+    "E": {1: [("c1", 20), ("c1", 20), ("c1", 20)], 2: [("c1", 10), ("c1", 10)]},
 }
 CFG = """INIT Init
 NEXT Next
@@ -41,8 +44,8 @@ NEXT_ALLOWED = {"begin": {"lookup", "begin"}, "lookup": {"put", "sub", "begin"},
 
 class Rec(MessagePassingComputation):
     """records a message when the agent hands it to the computation (Agent._handle_message -> on_message): a computation that is
-    registered but not started yet keeps it and gets it again, re-injected, when it starts - that second delivery is C19's
-    subject and is not recorded"""
+    registered but not started yet would keep it and get it again, re-injected, when it starts - C19's subject: the harness creates
+    its computations already running"""
 
     def __init__(self, name, on_handled):
         super().__init__(name)
@@ -51,9 +54,9 @@ class Rec(MessagePassingComputation):
         self._msg_handlers["m"] = lambda s, m, t: None
 
     def on_message(self, sender, msg, t):
-        if id(msg) not in self._seen:
-            self._seen.add(id(msg))
-            self._on_handled(self.name, sender, msg)
+        # every delivery counts (the harness creates the computation running: nothing is kept and re-injected), so that a message
+        # handed twice shows
+        self._on_handled(self.name, sender, msg)
         return super().on_message(sender, msg, t)
 
 
@@ -62,6 +65,8 @@ class Diverged(Exception):
 
 
 class Driver:
+    REGS = 0
+
     def __init__(self, scripts, dests=("c1", "c2"), late=("c2",), real_loop=False, free=False):
         """real_loop: the agent's own thread runs the REAL Agent._run, parked at every call of Messaging.next_msg; otherwise
         the loop body is executed by vlib/agentrt.py"""
@@ -123,6 +128,8 @@ class Driver:
                     # Put step, and its yield point when the lock is taken; a thread that just deferred a message is at Fail)
                     st.point("put")
                     st.point("fail")
+                    # (the registering thread: between what it did since the callback table test and its critical section)
+                    st.point("reglock")
                     if not inner.acquire(timeout=3):
                         # a parked thread holds the lock: the code no longer follows the model's steps; stop stepping
                         with st.cv:
@@ -233,15 +240,30 @@ class Driver:
             if not self.a.is_running:
                 self.reg[d] = "data"
             else:
-                self.st.spawn("reg_" + d, lambda: self.register(d), next_allowed={"regfire": set()}, first={"regfire"})
+                self.st.spawn("reg_" + d, lambda: self.register(d), next_allowed={"regfire": {"reglock"}, "reglock": set()},
+                              first={"regfire"})
                 w = self.st.where("reg_" + d)
                 if w != ("parked", "regfire"):
                     raise Diverged("the registering thread is at %r after recording the computation" % (w,))
                 self.reg[d] = "data"
+        elif n == "regtest":
+            # the callback table test, up to the acquisition of the lock of Messaging._on_computation_registration (or to the end)
+            d = a["d"]
+            if ("reg_" + d) in self.st.state and hasattr(self.a._messaging, "_failed_lock"):
+                if self.st.where("reg_" + d) != ("parked", "regfire"):
+                    raise Diverged("the registering thread is at %r, the model expects the callback table test" % (self.st.where("reg_" + d),))
+                w = self.st.advance("reg_" + d)
+                self.reg[d] = "lock" if w == ("parked", "reglock") else "done"
+            else:
+                # (no lock in this code, or no thread: the test and the callbacks are one step of the harness, made at regfire)
+                self.reg[d] = "lock" if d in self.project()["cbs"] else "done"
         elif n == "regfire":
             d = a["d"]
             if ("reg_" + d) in self.st.state:
-                w = self.st.advance("reg_" + d)
+                w = self.st.where("reg_" + d)
+                for _ in range(2):
+                    if w[0] == "parked":
+                        w = self.st.advance("reg_" + d)
                 if w[0] != "done":
                     raise Diverged("the registering thread did not finish: %r" % (w,))
             self.reg[d] = "done"
@@ -282,6 +304,19 @@ class Driver:
             self.exited = True
         else:
             raise MachineryError("unknown action %r" % a)
+
+    def apply_lenient(self, a):
+        """the code has left the model: the action only says which thread makes the next step"""
+        n = a["n"]
+        key = a["p"] if "p" in a else ("reg_" + a["d"] if n in ("regtest", "regfire") else None)
+        try:
+            if key is not None and key in self.st.state:
+                if self.st.where(key)[0] == "parked":
+                    self.st.advance(key)
+            elif key is None:
+                self.apply(a)
+        except (Diverged, RuntimeError):
+            pass
 
     def idle_poll(self):
         """real loop mode: let the agent make a poll that finds nothing; it is then between that poll and its next loop test"""
@@ -370,8 +405,9 @@ class Driver:
             # code can then bounce a deferred message between post_msg and its registration callback for ever
             for k in [k for k in self.st.state if str(k).startswith("reg_")]:
                 try:
-                    if self.st.where(k)[0] == "parked":
-                        self.st.advance(k)
+                    for _ in range(2):
+                        if self.st.where(k)[0] == "parked":
+                            self.st.advance(k)
                 except RuntimeError:
                     pass
             if self.real_loop:
@@ -465,7 +501,8 @@ def run(tier):
     hist = []
     cex_hist = []
     total_paths = total_steps = total_edges = 0
-    for name in (["A", "B", "C"] if quick else ["A", "B", "C", "D"]):
+    ndiv, t_start, departed_budget = 0, time.time(), (400 if quick else 3000)
+    for name in (["A", "B", "C", "E"] if quick else ["A", "B", "C", "D", "E"]):
         sc = SCRIPTS[name]
         import inspect
         from pydcop.infrastructure.agents import Agent as _Agent
@@ -504,26 +541,39 @@ def run(tier):
         v.add_tlc(res, "exhaustive model checking of Messaging.tla (scripts %s: %s) with invariants + labelled edge dump" % (name, sc))
         init = {"pc": ["idle", "idle"], "idx": [1, 1], "cbs": [], "known": ["c1"], "failed": [], "queue": [], "handled": [], "shut": False, "exited": False, "apc": "poll", "reg": {"c2": "no"}}
         paths = g.cover(init, max_len=40)
-        if quick and len(paths) > 700:
+        if quick and len(paths) > 550:
             random.Random(seed()).shuffle(paths)
-            paths = paths[:700]
+            paths = paths[:550]
+        # covering paths reach every edge by a short prefix; random walks add long histories, half of them with the agent's loop
+        # mostly kept waiting at first (a backlog builds up in the queue before it is consumed)
+        rw = random.Random(seed() + 1800 + len(name))
+        nw = 60 if quick else 600
+        paths += RP.walks(g, init, nw, 40, rw) + RP.walks(g, init, nw, 40, rw, weight=lambda a, k: 0.1 if a["n"] in ("next", "idle", "shutdown") and k < 14 else 1.0)
         total_edges += g.nedges
         for pi, path in enumerate(paths):
-            if len(v.divergences) >= 12:
-                v.notes.append("replay stopped after 12 divergences: the code does not follow Messaging.tla's steps; verdict from the histories judged so far")
+            if ndiv >= 12 and time.time() - t_start > departed_budget:
+                v.notes.append("the code does not follow Messaging.tla's steps (%d divergences): the schedules of the model's paths kept being "
+                               "applied to the real threads, without comparison, until the time budget ended at path %d" % (ndiv, pi))
                 break
             d = Driver(sc, real_loop=(pi % 2 == 1))
             diverged = False
             _t0 = time.time()
             try:
                 for k, (a, exp) in enumerate(path):
+                    if diverged:
+                        # the code has left the model on this path: the rest of the path is still a schedule of the real threads (who
+                        # makes the next step); it is applied as far as it can be and the history is judged
+                        d.apply_lenient(a)
+                        continue
                     try:
                         d.apply(a)
                     except Diverged as ex:
-                        v.divergence("scripts %s path %d step %d (%s): %s" % (name, pi, k, a["n"], ex))
-                        d.st.free_run()         # the threads finish on their own; the history is still judged
+                        ndiv += 1
+                        if ndiv <= 12:
+                            v.divergence("scripts %s path %d step %d (%s): %s" % (name, pi, k, a["n"], ex))
                         diverged = True
-                        break
+                        d.apply_lenient(a)
+                        continue
                     total_steps += 1
                     got = d.project()
                     exp = dict(exp, known=sorted(exp["known"]), cbs=sorted(exp["cbs"]))
@@ -531,8 +581,10 @@ def run(tier):
                         break      # the real thread has run Agent._on_stop (computations unregistered), which is outside the model
                     diff = RP.first_diff(got, exp)
                     if diff:
-                        v.divergence("scripts %s path %d step %d (%s): real objects differ from Messaging.tla at %s" % (name, pi, k, a["n"], diff))
-                        break
+                        ndiv += 1
+                        if ndiv <= 12:
+                            v.divergence("scripts %s path %d step %d (%s): real objects differ from Messaging.tla at %s" % (name, pi, k, a["n"], diff))
+                        diverged = True
                 if pi % 4 < 2 or d.a._shutdown.is_set() or diverged:
                     d.settle()
                 hist.append((d.history(len(hist)), {"scripts": name, "path": [x[0] for x in path]}))
@@ -577,7 +629,8 @@ def run(tier):
     v.cov["exhaustive"] = not quick
     v.cov["rule"] = ("model: two posting threads with scripts of 2-3 post_msg calls (types 5/10/20, a registered and a late-registered destination), "
                      "all interleavings of the five steps of post_msg with registration, agent loop iterations, clean shutdown and loop exit; every "
-                     "explored transition (quick: a seeded sample of 700 covering paths per script set) replayed with real threads advanced step by "
+                     "explored transition (quick: a seeded sample of 550 covering paths per script set), plus 120 (quick) / 1200 random walks of 40 steps per "
+                     "script set, half of them letting a backlog build up before the agent consumes it, replayed with real threads advanced step by "
                      "step, full projection comparison (thread positions, known destinations, deferred list, queue order, handled, shutdown flags); "
                      "histories judged by TLC; non-trivial = at least two messages handled")
     v.cov["trusted_base"] = ["TLC", "vlib/agentrt.py", "vlib/stepthreads.py (parks real threads at wrapped callables)"]
